@@ -16,6 +16,8 @@ EXTRA = {  # additional checks expected to notice a change that was written agai
     'C15-d': ['C08'], 'C16-d': ['C08'], 'C08-c': ['C20'], 'C07-d': ['C11'], 'C18-d': ['C12'], 'C02-c': ['C05'], 'C02-d': ['C15'],
     'C02-f': ['C08'], 'C03-f': ['C02'], 'C04-f': ['C11'], 'C05-e': ['C04'], 'C05-f': ['C02'],
     'C14-f': ['C02'], 'C16-f': ['C20'], 'C18-e': ['C08'], 'C19-e': ['C11'],
+    'C02-g': ['C12'], 'C07-g': ['C08'], 'C07-h': ['C08'], 'C18-h': ['C03'], 'C13-g': ['C20'], 'C12-h': ['C05'], 'C19-g': ['C08'],
+    'C03-h': ['C02'], 'C12-g': ['C03'],
 }
 
 
